@@ -2,7 +2,7 @@
    Only statements closed by [exact]; proofs live in C02/. *)
 From Coq Require Import ZArith QArith List Bool Reals Ring.
 From PV Require Import C02.PostselectModel C02.PostselectProofs C02.DistModel C02.DistProofs C02.RejectProofs C02.ChainProofs C02.ImperfectModel C02.ShotsProofs
-  C02.TruncPolyModel C02.TruncPolyProofs C02.DistTableProofs C02.DyneModel C02.DyneProofs C02.BinningProofs.
+  C02.TruncPolyModel C02.TruncPolyProofs C02.DistTableProofs C02.DyneModel C02.DyneProofs C02.BinningProofs C02.CondProofs C02.HomodyneProofs.
 Import ListNotations.
 Open Scope Z_scope.
 
@@ -224,6 +224,55 @@ Theorem C02_binning_frequencies_sum : forall A (eqb : A -> A -> bool) (samples :
   samples <> [] -> (sumQ (map snd (frequencies eqb samples)) == 1)%Q.
 Proof. exact binning_frequencies_sum. Qed.
 Print Assumptions C02_binning_frequencies_sum.
+
+(* _sample_dist_output_conditioned_on_postselection as a program in the distribution monad (its
+   weights are the model's photon_weights, which the correspondence compares with the arrays handed
+   to rng.choice): for every list of photons, every sequence s of drawn indices and every remaining
+   post-selection pattern rem of non-zero probability, the law of the whole draw sequence is
+   P(sequence = s and post-selected counts = rem) / P(post-selected counts = rem) under the product
+   law of the photons, i.e. the product law conditioned on the post-selection *)
+Theorem C02_conditioned_dist_law : forall (K k : nat) (photons : list photon),
+  Forall (photon_ok K k) photons ->
+  forall s rem, length s = length photons -> Forall (fun i => (i < K + 1 + k)%nat) s -> length rem = k ->
+  Tb k photons rem <> 0%R ->
+  mass (cond_sampler K k photons rem) (eqlN s) = (target K k photons s rem / Tb k photons rem)%R.
+Proof. exact conditioned_dist_law. Qed.
+Print Assumptions C02_conditioned_dist_law.
+
+Theorem C02_conditioned_dist_denominator : forall K k (photons : list photon) rem,
+  length rem = k -> Forall (photon_ok K k) photons ->
+  Tb k photons rem = mass (place k (map snd photons)) (counts_are rem).
+Proof. exact Tb_is_postselection_probability. Qed.
+Print Assumptions C02_conditioned_dist_denominator.
+
+(* homodyne: the model of homodyne_measurement (rotate the measured modes by phi, c = cos phi,
+   s = sin phi, then the general-dyne sampler with detection covariance diag(z^2, 1/z^2)) hands
+   over, for every measured mode in program order, the mean of x_phi = c x + s p (entry 2i) and
+   of its conjugate -s x + c p (entry 2i+1) ... *)
+Theorem C02_homodyne_mean_arg : forall (c s : R) (mu : list R) modes i e,
+  (i < length modes)%nat -> (e < 2)%nat -> (2 * nth i modes 0%nat + 1 < length mu)%nat ->
+  nth (2 * i + e) (homodyne_mean_arg (N:=RN) c s mu modes) 0%R =
+  rotq c s e (nth (2 * nth i modes 0%nat) mu 0%R) (nth (2 * nth i modes 0%nat + 1) mu 0%R).
+Proof. exact homodyne_mean_arg_spec. Qed.
+Print Assumptions C02_homodyne_mean_arg.
+
+(* ... and the covariance of those rotated quadratures (rows and columns rotated) plus
+   hbar * diag(z^2, 1/z^2) on every measured mode, halved by the repaired code; for every d, every
+   square covariance matrix and every list of measured modes in any order *)
+Theorem C02_homodyne_cov_arg : forall halved (hbar c s z : R) (sigma : list (list R)) modes ia ea ib eb,
+  Forall (fun r => length r = length sigma) sigma ->
+  (ia < length modes)%nat -> (ib < length modes)%nat -> (ea < 2)%nat -> (eb < 2)%nat ->
+  (2 * nth ia modes 0%nat + 1 < length sigma)%nat -> (2 * nth ib modes 0%nat + 1 < length sigma)%nat ->
+  mget (N:=RN) (homodyne_cov_arg (N:=RN) halved hbar c s z sigma modes) (2 * ia + ea) (2 * ib + eb) =
+  let ma := nth ia modes 0%nat in
+  let mb := nth ib modes 0%nat in
+  let S := rotq c s eb
+             (rotq c s ea (mget (N:=RN) sigma (2 * ma) (2 * mb)) (mget (N:=RN) sigma (2 * ma + 1) (2 * mb)))
+             (rotq c s ea (mget (N:=RN) sigma (2 * ma) (2 * mb + 1)) (mget (N:=RN) sigma (2 * ma + 1) (2 * mb + 1))) in
+  let D := block_diag_entry (N:=RN) (homodyne_detection_cov (N:=RN) z) (2 * ia + ea) (2 * ib + eb) in
+  (if halved then (S + hbar * D) / 2 else S + hbar * D)%R.
+Proof. exact homodyne_cov_arg_spec. Qed.
+Print Assumptions C02_homodyne_cov_arg.
 
 Example C02_example_accept :
   run_from true true [0%nat] [1] 2 2 5 0 [Kept 0 1; Kept 0 0] = Accepted [1] 1%nat [].
